@@ -25,7 +25,9 @@ Record arith := {
   a_gt : num -> num -> bool;
   a_lt : num -> num -> bool;
   a_of_nat : nat -> num;             (* float64(n) for a length / count n *)
-  a_trunc : num -> Z                 (* int(x) *)
+  a_trunc : num -> Z;                (* int(x) *)
+  a_le : num -> num -> bool;         (* Go's x <= y (false on a NaN) *)
+  a_wmax : num                       (* the float64 constant 1+1e-9 of the usable-weight test *)
 }.
 
 (** two's-complement wrap of Go's 64-bit [int] *)
@@ -58,9 +60,11 @@ Definition dynamic_from (nf len : nat) (sf : num) : num :=
   let d := a_div A (a_sub A one sf) (a_of_nat A (len - nf)) in
   if a_lt A d zero then zero else d.
 
-(** weighTargets, l.218-259: the effective weight of every target, in order.
-    [l] = the FixedWeight fields of r.Targets. *)
-Definition weigh (l : list num) : list num :=
+(** weighTargets BEFORE commit 290c777 (no fallback): the effective weight of every
+    target, in order.  [l] = the FixedWeight fields of r.Targets.  Since 290c777 these are
+    the weights the assignment loop computes before it looks at them; kept under this name
+    for the refutation theorems about the unrepaired code. *)
+Definition weigh_unrepaired (l : list num) : list num :=
   let nf := n_fixed l in
   let len := length l in
   if Nat.eqb nf 0 then
@@ -75,6 +79,35 @@ Definition weigh (l : list num) : list num :=
 Definition slot_count (w : num) : Z :=
   let n := a_trunc A (a_mul A (a_max_slots A) w) in
   if (n =? 0)%Z && a_gt A w zero then 1%Z else n.
+
+(** [usedSlots += n] over all targets in Go's wrapping 64-bit int *)
+Definition total_slots (counts : list Z) : Z :=
+  fold_left (fun u n => wrap64 (u + n)) counts 0%Z.
+
+(** weighEvenly (since 290c777): every target gets 1 / float64(len) *)
+Definition weigh_even (l : list num) : list num :=
+  let w := a_div A one (a_of_nat A (length l)) in map (fun _ => w) l.
+
+(** the test of 290c777 inside the assignment loop, [t.Weight >= 0 && t.Weight <= 1+1e-9]
+    (the code tests its negation, so a NaN is unusable) *)
+Definition usable (w : num) : bool := a_le A zero w && a_le A w (a_wmax A).
+
+(** weighTargets falls back to weighEvenly on the fixed-weight path: some computed weight is
+    not usable, or (all usable) [usedSlots <= 0] after the slot-count loop *)
+Definition fallback (l : list num) : bool :=
+  let ws := weigh_unrepaired l in
+  negb (forallb usable ws) || (total_slots (map slot_count ws) <=? 0)%Z.
+
+(** the ring is built by the fill loop (neither the no-fixed-weight branch nor a fallback) *)
+Definition uses_fill (l : list num) : bool :=
+  negb (Nat.eqb (n_fixed l) 0) && negb (fallback l).
+
+(** weighTargets as it is (route.go since 290c777): the effective weight of every target.
+    The assignment loop tests each weight right after assigning it and the first unusable
+    one replaces ALL weights by the even distribution, so the final weights are the computed
+    ones iff every one is usable and some slot is used. *)
+Definition weigh (l : list num) : list num :=
+  if uses_fill l then weigh_unrepaired l else weigh_even l.
 
 (** setWeight (route.go:118-147).  [m] says for every target whether it matches
     the service / tags of the command; matching targets get [weight / float64(n)].
@@ -110,9 +143,12 @@ Definition arithQ : arith := {|
   a_gt := Q_gt;
   a_lt := Q_lt;
   a_of_nat := fun n => inject_Z (Z.of_nat n);
-  a_trunc := Q_trunc
+  a_trunc := Q_trunc;
+  a_le := Qle_bool;
+  a_wmax := 281474976992131 # 281474976710656   (* the double nearest 1.000000001 = 1 + 4503600 * 2^-52 *)
 |}.
 
 Definition weighQ : list Q -> list Q := weigh arithQ.
+Definition weighQ_unrepaired : list Q -> list Q := weigh_unrepaired arithQ.
 Definition slot_countQ : Q -> Z := slot_count arithQ.
 Definition sumQ (l : list Q) : Q := fold_right Qplus 0%Q l.
